@@ -340,7 +340,16 @@ def exports(g):
         "to_geodataframe_geopandas": lambda: g.to_geodataframe(periodic_elements="ignore", engine="geopandas"),
         "to_polycollection": lambda: g.to_polycollection(periodic_elements="exclude"),
         "to_linecollection": lambda: g.to_linecollection(periodic_elements="exclude"),
+        # (projections whose central longitude is not zero: the node longitudes are re-centred for the export)
+        "projected:to_polycollection": lambda: g.to_polycollection(periodic_elements="exclude", projection=_proj("Robinson", 90)),
+        "projected:to_linecollection": lambda: g.to_linecollection(periodic_elements="exclude", projection=_proj("Mollweide", -60)),
     }
+
+
+def _proj(name, lon0):
+    import cartopy.crs as ccrs
+
+    return getattr(ccrs, name)(central_longitude=lon0)
 
 
 def edit_export(name, obj, rng):
@@ -428,6 +437,32 @@ def part_export(ctx, case, m, rng):
         ctx.check("export_independent", after == before, {"export": nm, "what": "grid reports after caller edits", "warm": warm, "chunked": chunked}, {"changed_reports": diff_keys(before, after), "edits": edits, "mesh": case["mesh"]})
         ctx.check("export_independent", again == ref_digest, {"export": nm, "what": "re-export equals a fresh grid's export", "warm": warm, "chunked": chunked}, {"edits": edits, "changed": _changed(ref_digest, again), "mesh": case["mesh"]})
         ctx.observe("export_" + nm)
+    # exports of DATA on the grid: the grid's own (cached) frame and the grid's reports are what they were, whatever was cached
+    # before and whatever `cache` says; a projected frame leaves the grid's longitudes alone
+    try:
+        U = ux.ux()
+        with warnings.catch_warnings():
+            warnings.simplefilter("ignore")
+            gA, gB = mk(), mk()
+            before = observe(gA)
+            own0 = export_digest(gA.to_geodataframe(periodic_elements="exclude"))  # cached on the grid from here on
+            da_v = U.UxDataArray(np.arange(m.n_face, dtype=float), dims=["n_face"], uxgrid=gA, name="v")
+            da_w = U.UxDataArray(np.arange(m.n_face, dtype=float) * 2, dims=["n_face"], uxgrid=gA, name="w")
+            for step, (arr, kw) in enumerate([(da_v, {"cache": False}), (da_w, {}), (da_v, {"cache": False, "projection": _proj("Robinson", 90)}), (da_w, {"cache": False})]):
+                e = arr.to_geodataframe(periodic_elements="exclude", **kw)
+                cols = sorted(map(str, e.columns))
+                sigd = {"export": "data:to_geodataframe", "cache": kw.get("cache", True), "projected": "projection" in kw, "step": step}
+                ctx.check("export_independent", cols == sorted(["geometry", arr.name]), dict(sigd, what="columns of a data export"), {"columns": cols, "mesh": case["mesh"]})
+                edit_export("data", e, rng)
+                own = export_digest(gA.to_geodataframe(periodic_elements="exclude"))
+                ctx.check("export_independent", own == own0, dict(sigd, what="the grid's own frame after a data export"), {"changed": _changed(own0, own), "mesh": case["mesh"]})
+            fresh_own = export_digest(gB.to_geodataframe(periodic_elements="exclude"))
+            ctx.check("export_independent", own0 == fresh_own, {"export": "data:to_geodataframe", "what": "grid frame equals a fresh grid's"}, {"mesh": case["mesh"]})
+            observe(gB)
+            ctx.check("export_independent", observe(gA) == before, {"export": "data:to_geodataframe", "what": "grid reports after data exports"}, {"changed_reports": diff_keys(before, observe(gA)), "mesh": case["mesh"]})
+        ctx.observe("export_data_to_geodataframe")
+    except Exception as e:
+        ctx.observe("data_export_raised:" + core.exc_sig(e))
     ctx.mark_nontrivial()
 
 
